@@ -708,22 +708,25 @@ class DivisionOperator(BinaryOperator):
         return self.element_1.named_arrayed
 
 class NumericalMultiplicationOperator(BinaryOperator):
+    def _is_element_arrayed(self, element):
+        return isinstance(element, BPTK_Py.sddsl.element.Element) and element._elements.vector_size() > 0
+
     def term(self, time="t"):
+        self.el1_arrayed = self._is_element_arrayed(self.element_1)
         if self.arrayed:
             if self.index == None:  # Can not resolve arrayed equations without index
                 return "0.0"
 
-            self.el1_arrayed = isinstance(
-                self.element_1, BPTK_Py.sddsl.element.Element) and self.element_1._elements.vector_size()
-
-            if(self.el1_arrayed):
-                cur_el1 = self.element_1
+            # either operand may be the arrayed one: -vector has it on the left, 2.0*matrix on the right
+            cur_el1 = self.element_1
+            cur_el2 = self.element_2
+            if self.el1_arrayed:
                 for i in self.index:
                     cur_el1 = cur_el1[i]
-                return "({}) * ({})".format(self.element_2.term(time), cur_el1.term(time))
-
-            else:
-                return "(" + self.element_2.term(time) + ") * (" + self.element_1.term(time) + ")"
+            if self._is_element_arrayed(self.element_2):
+                for i in self.index:
+                    cur_el2 = cur_el2[i]
+            return "({}) * ({})".format(cur_el2.term(time), cur_el1.term(time))
         else:
             return "(" + self.element_2.term(time) + ") * (" + self.element_1.term(time) + ")"
 
@@ -748,13 +751,13 @@ class NumericalMultiplicationOperator(BinaryOperator):
         return NumericalMultiplicationOperator(element_1, element_2, index)
 
     def index_to_string(self, index):
-        if self.el1_arrayed:
+        if self._is_element_arrayed(self.element_1):
             return self.element_1._elements.equations[index]
         else:
             return self.element_2._elements.equations[index]
 
     def is_named(self):
-        if self.el1_arrayed:
+        if self._is_element_arrayed(self.element_1):
             return self.element_1.named_arrayed
         else:
             return self.element_2.named_arrayed
